@@ -113,7 +113,7 @@ func straddle(calls []hcall, k int) string {
 }
 
 func C16(r *vf.Run) {
-	r.Rule = "generated histories x every split point (0..n, including before SetBase): tail emitted into a Clone (buffer exactly large enough or larger) and Appended back; the directly-fed emitter is the oracle for Bytes, Len, PC, GetBase, Flags, GetLabel, both listings, Finalize outcome and finalized bytes; original re-observed between Clone and Append; over-capacity Append (1-3 bytes short) must panic and leave the original unchanged; a cell is (what straddles the split, listing on/off)"
+	r.Rule = "generated histories x every split point (0..n, including before SetBase), plus two successive splits and a clone of the clone: tail emitted into a Clone (buffer exactly large enough or larger) and Appended back; the directly-fed emitter is the oracle for Bytes, Len, PC, GetBase, Flags, GetLabel, both listings, Finalize outcome and finalized bytes; original re-observed between Clone and Append; over-capacity Append (1-3 bytes short) must panic and leave the original unchanged; a cell is (what straddles the split, listing on/off)"
 	if !r.Phase("splits") {
 		return
 	}
@@ -137,6 +137,59 @@ func C16(r *vf.Run) {
 			wantFinBytes := append([]byte(nil), direct.Bytes()...)
 			total := direct.Len()
 			_ = wantErr
+			// repeated and nested splitting: after an Append the emitter must be as good as a directly fed
+			// one, so splitting it again (or cloning the clone) must still reproduce the direct result
+			for rep := 0; rep < 6 && len(calls) >= 2; rep++ {
+				a, b := g.Intn(len(calls)+1), g.Intn(len(calls)+1)
+				if a > b {
+					a, b = b, a
+				}
+				nested := g.Bool()
+				orig := asm.NewEmitter(make([]byte, 16384), listing)
+				for _, c := range calls[:a] {
+					invoke(orig, c)
+				}
+				pan := vf.Try(func() {
+					c1 := orig.Clone(make([]byte, 16384))
+					for _, c := range calls[a:b] {
+						invoke(c1, c)
+					}
+					if nested {
+						c2 := c1.Clone(make([]byte, 16384))
+						for _, c := range calls[b:] {
+							invoke(c2, c)
+						}
+						c1.Append(c2)
+						orig.Append(c1)
+					} else {
+						orig.Append(c1)
+						c2 := orig.Clone(make([]byte, 16384))
+						for _, c := range calls[b:] {
+							invoke(c2, c)
+						}
+						orig.Append(c2)
+					}
+				})
+				r.Eval(1)
+				kind := "two-splits"
+				if nested {
+					kind = "nested-clones"
+				}
+				if pan != nil {
+					r.Fail("recombined-"+kind+"-panic", fmt.Sprintf("splits at %d and %d (%s): %v", a, b, kind, pan), hs())
+					continue
+				}
+				got := observeFull(orig, names, listing)
+				if d := want.diffFull(got); d != "" {
+					r.Fail("recombined-"+kind+"-differs", fmt.Sprintf("splits at %d and %d of %d (%s): direct vs recombined: %s", a, b, len(calls), kind, d), hs())
+					continue
+				}
+				if fin, _ := finalizeOutcome(orig); fin != wantFin || (wantFin == "ok" && string(orig.Bytes()) != string(wantFinBytes)) {
+					r.Fail("recombined-"+kind+"-finalize", fmt.Sprintf("splits at %d and %d (%s): Finalize direct=%s recombined=%s or finalized bytes differ", a, b, kind, wantFin, fin), hs())
+					continue
+				}
+				cells["multi:"+kind]++
+			}
 			for sp := 0; sp <= len(calls); sp++ {
 				r.Eval(1)
 				orig := asm.NewEmitter(make([]byte, 16384), listing)
@@ -226,7 +279,7 @@ func C16(r *vf.Run) {
 		}
 		r.MergeCells(cells)
 	})
-	for _, s := range []string{"fwdref", "backref", "base", "width", "nothing:listing=true", "nothing:listing=false", "append-refused:short1", "append-refused:short3"} {
+	for _, s := range []string{"fwdref", "backref", "base", "width", "nothing:listing=true", "nothing:listing=false", "append-refused:short1", "append-refused:short3", "multi:two-splits", "multi:nested-clones"} {
 		r.RequireSub(s)
 	}
 }
